@@ -1,4 +1,4 @@
 From Coq Require Import Extraction ExtrOcamlBasic NArith.
 From JV Require Import Model.Stop.
 Extraction Language OCaml.
-Extraction "../modelrun/gen/stop_model.ml" init step effective sig all_dropped internal N.of_nat N.to_nat.
+Extraction "../modelrun/gen/stop_model.ml" init init_cap step effective sig all_dropped internal N.of_nat N.to_nat.
